@@ -340,3 +340,7 @@ mod tests {
         assert!(!filter.is_in("10:32:54:76:98:BA:DC:FF".parse().unwrap()));
     }
 }
+
+#[cfg(all(test, pendulum_project_ntpd_rs_verif))]
+#[path = "/verif/harness/ntp_proto/ipfilter.rs"]
+pub(crate) mod verif_hook;
